@@ -93,7 +93,7 @@ class Obligations:
                 s.add(z3.BoolVal(False))
         return s
 
-    def prove(self, name, assumptions, goal, cex=None, timeout_ms=None, kind=None, direct=False):
+    def prove(self, name, assumptions, goal, cex=None, timeout_ms=None, kind=None, direct=False, margin=None):
         """goal: z3 Bool or Python bool.  Returns 'unsat' | 'sat' | 'unknown'."""
         self.obligations += 1
         kind = kind or name.split("[")[0]
@@ -149,6 +149,10 @@ class Obligations:
                                      "negated_goal": str(z3.simplify(neg))[:400]})
         elif r == "sat":
             m = s.model()
+            if margin is not None:
+                # prefer a counterexample whose violation is large relative to the magnitude of the inputs, so that the
+                # replay can tell it from floating-point noise at any scale (the properties are scale-free)
+                m = self._refine(assumptions, neg, margin, budget) or m
             data = None
             if cex is not None:
                 try:
@@ -159,6 +163,27 @@ class Obligations:
         else:
             self.inconclusive.append({"obligation": name, "reason": s.reason_unknown(), "solver_s": round(dt, 2)})
         return r
+
+    def _refine(self, assumptions, neg, margin, budget):
+        lhs, rhs, scaled, unit = margin
+        M = z3.Real("M!scale")
+        s = self._solver(assumptions, min(budget, 20000))
+        s.add(neg, M > 0)
+        for x in scaled:
+            if zx.is_z(x):
+                s.add(x <= M, x >= -M)
+        for x in unit:
+            if zx.is_z(x):
+                s.add(x >= 0, x <= 1)
+        d = zx.Z(zx.to_real(lhs)) - zx.Z(zx.to_real(rhs))
+        s.add(z3.Or(d >= M / 1000, d <= -M / 1000))
+        try:
+            if s.check() == z3.sat:
+                self.extra["refined_cex"] = self.extra.get("refined_cex", 0) + 1
+                return s.model()
+        except Exception:
+            pass
+        return None
 
     def _dump(self, name, assumptions, neg, result):
         """MDPV_DUMP=<dir>: write the exact query of the first two obligations of each job as SMT-LIB2 (for the
